@@ -215,6 +215,24 @@ def check_spec(spec: NetSpec, label, st: Stats, tier, palette_seed, light=False)
             bad("C07/to_function/argument-count", f"all elements named x: {F.nnz_in()} scalar inputs", phase="equal-names")
     except Exception as e:  # noqa: BLE001
         bad(f"C07/equal-names/exception/{exc_site(e)}/{type(e).__name__}", f"all elements named x: {exc_text(e)}", phase="equal-names")
+    # 4c. the same element objects re-used in a second network (fresh nodes) after the first one was stepped
+    st.inc("executions", 2)
+    st.inc("transitions", 4)
+    try:
+        from ..spec import rebuild_with_new_nodes
+        val0 = valgen.base_vector(spec, 0)
+        b1 = build(spec)
+        np_step(spec, val0, P0, built=b1)
+        b2 = rebuild_with_new_nodes(b1)
+        nxt, built, raw = np_step(spec, val0, P0, built=b2)
+        check_np_result("numpy-second-network", nxt, raw, built, val0, P0, "1d")
+        eng = env.casadi_engine("SX")
+        b1.net.step(engine=eng, **P0)
+        b2.net.step(engine=eng, **P0)
+        eng.to_function(b2.net, compact=0)
+    except Exception as e:  # noqa: BLE001
+        bad(f"C07/second-network/exception/{exc_site(e)}/{type(e).__name__}",
+            f"same element objects re-used in a second network: {exc_text(e)}", phase="second-network")
     # 4b. the same network reached by editing another, already stepped network in place (non-initial state)
     for emode in ("links", "attachments", "replace"):
         for sym in (("SX",) if light else ("SX", "MX")):
